@@ -18,6 +18,11 @@ def main():
         shutil.copy(os.path.join(VERIF, 'known_findings.json'), vd)
         shutil.copytree(os.path.join(VERIF, 'refdata'), os.path.join(vd, 'refdata'))
         if patch:
+            if patch.endswith('.gz'):
+                import gzip
+                plain = os.path.join(tmp, 'patch.diff')
+                open(plain, 'wb').write(gzip.open(patch).read())
+                patch = plain
             r = subprocess.run(['patch', '-p1', '-s', '-i', patch], cwd=repo)
             if r.returncode != 0:
                 print('PATCH FAILED'); return 2
